@@ -343,6 +343,9 @@ func genSeen(r *Rng, i int, tier string) string {
 	if r.Chance(15) {
 		n += 4
 	}
+	if tier == "thorough" && r.Chance(30) {
+		n += 6 + r.Intn(10)
+	}
 	mal := r.Chance(12) // arbitrary statuses for direct SeencheckItem calls
 	var steps []seenStep
 	for k := 0; k < n; k++ {
